@@ -3,8 +3,11 @@
 Leg M: TLC on Purity.tla enumerates every history tree of apply / re-apply / serialise-and-restore of depth <= 3
        (quick) / 4 (thorough); the deviations "mutates its input", "hidden state on the algorithm object" and "lossy
        round trip" are reported.
-Leg R+T: every enumerated history (sampled in the quick tier) is executed on each built-in algorithm - FedAvg, FedProx,
-       Mime, MimeLite, AgnosticFedAvg, HypCluster, APFL - and on FedAvg loops around the four compression aggregators;
+Leg R+T: every enumerated history (sampled in the quick tier) is executed on each built-in algorithm - FedAvg (also with
+       haiku-shaped nested parameters and a freezing server optimizer), FedProx, Mime, MimeLite, AgnosticFedAvg,
+       HypCluster, APFL - and on FedAvg loops around the four compression aggregators; rounds that continue from a
+       serialised-and-restored state run on a SECOND algorithm object (the restoring process), so state hidden on the
+       algorithm object shows as a Functional violation;
        after every operation every state created so far is fingerprinted (all leaves, nested containers, deleted
        buffers); the events are judged by TLC (PureHistory.tla: Functional, Immutable, FactsHold).
 """
@@ -22,17 +25,26 @@ from vf.core import Machinery
 
 
 def fingerprint(tree):
-  """Exact digest of every leaf of a pytree / nested python container; 'DELETED' if a buffer was donated."""
+  """Exact digest of the VALUE of a pytree / nested python container: every leaf (dtype, shape, bytes), the key sets
+  of mappings, the lengths of sequences, the field names of dataclasses / named tuples; 'DELETED' if a buffer was
+  donated.  Mapping types are not distinguished (haiku's FlatMap pickles to a dict with the same value)."""
+  import collections.abc  # pylint: disable=g-import-not-at-top
   import jax  # pylint: disable=g-import-not-at-top
   h = hashlib.sha1()
 
   def walk(x):
-    if isinstance(x, dict):
+    if isinstance(x, collections.abc.Mapping):
       h.update(b'{')
       for k in sorted(x, key=repr):
         h.update(repr(k).encode())
         walk(x[k])
       h.update(b'}')
+    elif hasattr(x, '_fields') and isinstance(x, tuple):
+      h.update(type(x).__name__.encode() + b'(')
+      for f, y in zip(x._fields, x):
+        h.update(f.encode())
+        walk(y)
+      h.update(b')')
     elif isinstance(x, (list, tuple)):
       h.update(b'[' if isinstance(x, list) else b'(')
       for y in x:
@@ -45,21 +57,21 @@ def fingerprint(tree):
         walk(getattr(x, f))
     elif x is None or isinstance(x, (int, float, str, bytes, bool)):
       h.update(repr(x).encode())
-    elif hasattr(x, '_fields') and isinstance(x, tuple):
-      for y in x:
-        walk(y)
     else:
+      children, treedef = jax.tree_util.tree_flatten(x, is_leaf=lambda y: y is not x)
+      if not (len(children) == 1 and children[0] is x):   # some other registered pytree node
+        h.update(type(x).__name__.encode() + b'<')
+        for y in children:
+          walk(y)
+        h.update(b'>')
+        return
       if hasattr(x, 'is_deleted') and x.is_deleted():
         raise BufferError('deleted')
       a = np.asarray(x)
       h.update(str(a.dtype).encode() + str(a.shape).encode() + np.ascontiguousarray(a).tobytes())
 
   try:
-    leaves, treedef = jax.tree_util.tree_flatten(tree)
-    h.update(str(treedef).encode())
-    for l in leaves:
-      walk(l)
-    walk_containers(tree, h)
+    walk(tree)
     return h.hexdigest()
   except BufferError:
     return 'DELETED'
@@ -67,21 +79,6 @@ def fingerprint(tree):
     if 'deleted' in str(ex).lower():
       return 'DELETED'
     raise
-
-
-def walk_containers(x, h):
-  """Adds the key sets / lengths of nested python containers (a per-client table gaining an entry changes this)."""
-  if isinstance(x, dict):
-    h.update(('dict:' + repr(sorted(map(repr, x)))).encode())
-    for k in sorted(x, key=repr):
-      walk_containers(x[k], h)
-  elif isinstance(x, (list, tuple)):
-    h.update(f'seq:{len(x)}'.encode())
-    for y in x:
-      walk_containers(y, h)
-  elif hasattr(x, '__dataclass_fields__'):
-    for f in x.__dataclass_fields__:
-      walk_containers(getattr(x, f), h)
 
 
 class Interner:
@@ -125,13 +122,27 @@ def compression_algorithm(fedjax, kind, case):
   return fedjax.FederatedAlgorithm(init, apply), init, lambda s: island.params_list(s['params'])
 
 
-ALGS = ['fed_avg', 'fed_prox', 'mime', 'mime_lite', 'agnostic_fed_avg', 'hyp_cluster', 'apfl',
+ALGS = ['fed_avg', 'fed_avg_frozen', 'fed_prox', 'mime', 'mime_lite', 'agnostic_fed_avg', 'hyp_cluster', 'apfl',
         'agg:uniform', 'agg:uniform_arith', 'agg:rotated', 'agg:drive', 'agg:terngrad']
 
 
 def make(fedjax, name, case):
   if name.startswith('agg:'):
     return compression_algorithm(fedjax, name[4:], case)
+  if name == 'fed_avg_frozen':
+    # haiku-shaped (module -> name -> array) parameters in plain nested dicts (what hk.transform(...).init returns) and a
+    # server optimizer that freezes one entry: a configuration of the built-in FedAvg
+    from fedjax.algorithms import fed_avg  # pylint: disable=g-import-not-at-top
+    from fedjax.core import models  # pylint: disable=g-import-not-at-top
+    from fedjax.core import optimizers  # pylint: disable=g-import-not-at-top
+    inst = case['inst']
+
+    def loss(params, batch, rng):
+      return island.per_example_loss(params['lin'], batch, rng)
+
+    sopt = optimizers.ignore_grads_haiku(island.make_opt(fedjax, inst['sopt']), [('lin', 'b')])
+    alg = fed_avg.federated_averaging(models.grad(loss), island.make_opt(fedjax, inst['copt']), sopt, island.hparams(fedjax, case['h']))
+    return alg, (lambda p: alg.init({'lin': dict(p)})), (lambda s_: island.params_list(s_.params['lin']))
   kw = {}
   if name == 'fed_prox':
     kw['mu'] = 0.25
@@ -175,14 +186,41 @@ def run(ctx):
   scratch_ckpt = os.path.join(ctx.scratch, 'ckpt')
   for name in ALGS:
     alg, init, params_of = make(fedjax, name, case)
+    other = []     # a second algorithm object, built on demand: "the process that restored the state and continues"
     intern_v = Interner()
     ev = []
+    # continuation in another process: object 1 runs cohorts 1,2,3 from the initial state; a second algorithm object,
+    # whose very first call is on the restored state after round 1, continues with cohorts 2,3: same keys, same outputs
+    try:
+      st = init(island.params_tree(case['inst']['init']))
+      line1, line2 = [st], None
+      for c in (1, 2, 3):
+        clients = [(ids[k - 1], dss[k - 1], keys[c][k - 1]) for k in cohorts[c]]
+        before = fingerprint(line1[-1])
+        new, diag = alg.apply(line1[-1], clients)
+        ev.append({'e': 'Call', 'key': f'{name}:apply(state={intern_v(before)}, cohort={cohorts[c]}, keys#{c})',
+                   'out': intern_v(fingerprint(new) + '|' + fingerprint({repr(k): v for k, v in diag.items()}))})
+        line1.append(new)
+        if c == 1:
+          other.append(make(fedjax, name, case)[0])
+          line2 = [pickle.loads(pickle.dumps(new))]
+        else:
+          before2 = fingerprint(line2[-1])
+          new2, diag2 = other[0].apply(line2[-1], clients)
+          ev.append({'e': 'Call', 'key': f'{name}:apply(state={intern_v(before2)}, cohort={cohorts[c]}, keys#{c})',
+                     'out': intern_v(fingerprint(new2) + '|' + fingerprint({repr(k): v for k, v in diag2.items()}))})
+          line2.append(pickle.loads(pickle.dumps(new2)))
+      ctx.case(key=(name, 'continuation'), nontrivial=True)
+    except Exception as ex:  # pylint: disable=broad-except
+      ctx.violation(f'exception:{name}:{type(ex).__name__}', f'{name}: {type(ex).__name__}: {str(ex)[:200]} during the continuation scenario', replay={'algorithm': name})
+      continue
     chosen = list(hists)
     rng.shuffle(chosen)
     chosen = sorted(chosen[:per_alg], key=repr)
     broken = False
     for hi, hist in enumerate(chosen):
       nodes = [init(island.params_tree(case['inst']['init']))]
+      restored_line = [False]   # node descends from a serialise-restore: its rounds run on the other algorithm object
       tag = f'{name}#h{hi}'
 
       def observe_all():
@@ -196,8 +234,14 @@ def run(ctx):
           if op['op'] == 'apply':
             before = fingerprint(src)
             clients = [(ids[c - 1], dss[c - 1], keys[op['c']][c - 1]) for c in cohorts[op['c']]]
-            new, diag = alg.apply(src, clients)
+            if restored_line[op['i'] - 1]:
+              if not other:
+                other.append(make(fedjax, name, case)[0])
+              new, diag = other[0].apply(src, clients)
+            else:
+              new, diag = alg.apply(src, clients)
             nodes.append(new)
+            restored_line.append(restored_line[op['i'] - 1])
             diag_fp = fingerprint({repr(k): v for k, v in diag.items()})
             ev.append({'e': 'Call', 'key': f'{name}:apply(state={intern_v(before)}, cohort={cohorts[op["c"]]}, keys#{op["c"]})',
                        'out': intern_v(fingerprint(new) + '|' + diag_fp)})
@@ -212,6 +256,7 @@ def run(ctx):
               import shutil  # pylint: disable=g-import-not-at-top
               shutil.rmtree(d, ignore_errors=True)
             nodes.append(restored)
+            restored_line.append(True)
             ev.append({'e': 'Fact', 'name': 'RoundtripEqual', 'about': f'{tag} op {oi + 1}', 'holds': fingerprint(restored) == fingerprint(src)})
           observe_all()
       except Exception as ex:  # pylint: disable=broad-except
